@@ -351,7 +351,7 @@ def expand_names(func: FuncInfo, expr: ast.AST, depth: int = 2) -> ast.AST:
             if isinstance(n.ctx, ast.Load) and n.id not in func.params:
                 all_defs = assignments_to(func, n.id)
                 defs = [d for d in all_defs if isinstance(d, (ast.Assign, ast.AnnAssign)) and getattr(d, "value", None) is not None]
-                if len(defs) == 1 and len(all_defs) == 1 and isinstance(defs[0].value, (ast.Compare, ast.BoolOp, ast.UnaryOp, ast.BinOp, ast.Call, ast.JoinedStr, ast.Subscript, ast.Attribute)) \
+                if len(defs) == 1 and len(all_defs) == 1 and isinstance(defs[0].value, (ast.Compare, ast.BoolOp, ast.UnaryOp, ast.BinOp, ast.Call, ast.JoinedStr, ast.Subscript, ast.Attribute, ast.Name)) \
                         and _pure(defs[0].value) and not any(isinstance(y, ast.Name) and y.id == n.id for y in ast.walk(defs[0].value)):
                     v = copy.deepcopy(defs[0].value)
                     return expand_names(func, v, depth - 1) if depth > 0 else v
